@@ -83,6 +83,11 @@ func walkTree(rootGoitPath string, object *Object) ([]*Node, error) {
 	var nodeName string
 	isFirstLine := true
 
+	// the empty tree (snapshot without any file) has no entries
+	if len(object.Data) == 0 {
+		return nodes, nil
+	}
+
 	buf := bytes.NewReader(object.Data)
 	for {
 		var lineSplit []string
